@@ -5,7 +5,7 @@
 import PacketVerif.Gen.DhcpFileGen
 import PacketVerif.Lemmas.DhcpFileBcast
 set_option linter.unusedSimpArgs false
-open PV PV.Model.Dhcp4Srv PV.Model.Dhcp4File PV.Model.DhcpFileGo
+open PV PV.Model.Dhcp4Srv PV.Model.Dhcp4File PV.Model.Dhcp4Restart PV.Model.DhcpFileGo
 namespace PV.Lemmas.DhcpFileTie
 
 def WFRec (r : SubRec) : Prop :=
@@ -315,3 +315,258 @@ theorem saveConfig_tie (env : Env) (fs : List FsOp) (h : GHandler) (fname : Stri
         simp [yamlMarshal, he, fsCall, sealLeaseFile, w1, w2, hf]
     · intro e tb
       cases hs : e.2.state <;> simp [saveStep, entryState, hs, mapO, leaseValue]
+
+/-! ### Config.New -/
+
+/-- what `loadConfig` returns, at model level: `none` = no file name -/
+def loadModel (env : Env) (fname : String) : Outcome (Option (LSub × LSub × Table)) :=
+  if fname = "" then .ok none
+  else match env.readFile fname with
+    | none => .err .other
+    | some b =>
+      match openFile env.hash b with
+      | .damaged => .err .other
+      | .legacy y => (match env.dec y with | none => .err .other | some d => mapO some (loadRec env.captured d))
+      | .verified y => (match env.dec y with | none => .err .other | some d => mapO some (loadRec env.captured d))
+
+def liftLoad2 : Outcome (Option (LSub × LSub × Table)) → Outcome (Option GSubnet × Option GSubnet × Option Table)
+  | .ok none => .ok (none, none, none)
+  | .ok (some (n1, n2, t)) => .ok (some (gsubOf n1), some (gsubOf n2), some t)
+  | .err e => .err e
+  | .panic => .panic
+  | .hang => .hang
+
+theorem loadConfigSpec_model (env : Env) (fname : String) : loadConfigSpec env fname = liftLoad2 (loadModel env fname) := by
+  unfold loadConfigSpec loadModel
+  by_cases hf : fname = ""
+  · simp [hf, liftLoad2]
+  · cases hr : env.readFile fname with
+    | none => simp [hf, liftLoad2]
+    | some b =>
+      cases ho : openFile env.hash b with
+      | damaged => simp [hf, loadBytesSpec, ho, liftLoad2]
+      | legacy y =>
+        cases hd : env.dec y with
+        | none => simp [hf, loadBytesSpec, ho, hd, afterDec, liftLoad2]
+        | some d => cases hl : loadRec env.captured d <;> simp [hf, loadBytesSpec, ho, hd, hl, afterDec, mapO, liftLoad, liftLoad2]
+      | verified y =>
+        cases hd : env.dec y with
+        | none => simp [hf, loadBytesSpec, ho, hd, afterDec, liftLoad2]
+        | some d => cases hl : loadRec env.captured d <;> simp [hf, loadBytesSpec, ho, hd, hl, afterDec, mapO, liftLoad, liftLoad2]
+
+/-- the reset branch of `Config.New` -/
+def resetSpec (home nf : Expected) : Outcome Built :=
+  match Model.Dhcp4File.newSubnet (expectedRec home) with
+  | .ok n1 =>
+    (match Model.Dhcp4File.newSubnet (expectedRec nf) with
+     | .ok n2 => .ok { net1 := n1, net2 := n2, table := [] }
+     | .err e => .err e
+     | .panic => .panic
+     | .hang => .hang)
+  | .err e => .err e
+  | .panic => .panic
+  | .hang => .hang
+
+def fromModel (home nf : Expected) : Outcome (Option (LSub × LSub × Table)) → Outcome Built
+  | .ok none => resetSpec home nf
+  | .ok (some (n1, n2, t)) => if configChanged home n1 || configChanged nf n2 then resetSpec home nf else .ok { net1 := n1, net2 := n2, table := t }
+  | .err _ => resetSpec home nf
+  | .panic => .panic
+  | .hang => .hang
+
+theorem loadFile_model (env : Env) (fname : String) (home nf : Expected) :
+    loadFile env.hash env.dec home nf env.captured (if fname = "" then none else env.readFile fname) = fromModel home nf (loadModel env fname) := by
+  unfold loadModel
+  by_cases hf : fname = ""
+  · (simp [hf, loadFile, construct, fromModel, resetSpec] <;> try rfl)
+  · cases hr : env.readFile fname with
+    | none => (simp [hf, loadFile, construct, fromModel, resetSpec] <;> try rfl)
+    | some b =>
+      cases ho : openFile env.hash b with
+      | damaged => (simp [hf, loadFile, ho, construct, fromModel, resetSpec] <;> try rfl)
+      | legacy y =>
+        cases hd : env.dec y with
+        | none => (simp [hf, loadFile, ho, hd, construct, fromModel, resetSpec] <;> try rfl)
+        | some d => cases hl : loadRec env.captured d <;> (simp [hf, loadFile, ho, hd, hl, construct, mapO, fromModel, resetSpec] <;> try rfl)
+      | verified y =>
+        cases hd : env.dec y with
+        | none => (simp [hf, loadFile, ho, hd, construct, fromModel, resetSpec] <;> try rfl)
+        | some d => cases hl : loadRec env.captured d <;> (simp [hf, loadFile, ho, hd, hl, construct, mapO, fromModel, resetSpec] <;> try rfl)
+
+theorem loadRec_masked (cap : MAC → Bool) (d : FileRec) (n1 n2 : LSub) (t : Table) (h : loadRec cap d = .ok (n1, n2, t)) :
+    n1.lan % psize n1.bits = 0 ∧ n2.lan % psize n2.bits = 0 := by
+  unfold loadRec at h
+  cases h1 : d.net1 with
+  | none => simp [h1] at h
+  | some r1 =>
+    cases h2 : d.net2 with
+    | none => simp [h1, h2] at h
+    | some r2 =>
+      simp only [h1, h2] at h
+      cases hm1 : Model.Dhcp4File.newSubnet r1 with
+      | ok m1 =>
+        cases hm2 : Model.Dhcp4File.newSubnet r2 with
+        | ok m2 =>
+          simp only [hm1, hm2] at h
+          cases hl : loadLeases cap (some m1) (some m2) (d.leases.getD []) [] with
+          | ok t' =>
+            simp only [hl] at h
+            injection h with h
+            injection h with ha hb
+            injection hb with hb hc
+            subst ha; subst hb
+            exact ⟨newSubnet_masked _ _ hm1, newSubnet_masked _ _ hm2⟩
+          | _ => simp [hl] at h
+        | _ => simp [hm1, hm2] at h
+      | _ => simp [hm1] at h
+
+theorem loadModel_masked (env : Env) (fname : String) (n1 n2 : LSub) (t : Table) (h : loadModel env fname = .ok (some (n1, n2, t))) :
+    n1.lan % psize n1.bits = 0 ∧ n2.lan % psize n2.bits = 0 := by
+  unfold loadModel at h
+  by_cases hf : fname = ""
+  · simp [hf] at h
+  · simp only [hf, if_false] at h
+    cases hr : env.readFile fname with
+    | none => simp [hr] at h
+    | some b =>
+      simp only [hr] at h
+      cases ho : openFile env.hash b with
+      | damaged => simp [ho] at h
+      | legacy y =>
+        simp only [ho] at h
+        cases hd : env.dec y with
+        | none => simp [hd] at h
+        | some d =>
+          simp only [hd] at h
+          cases hl : loadRec env.captured d <;> simp [hl, mapO] at h
+          subst h; exact loadRec_masked _ _ _ _ _ hl
+      | verified y =>
+        simp only [ho] at h
+        cases hd : env.dec y with
+        | none => simp [hd] at h
+        | some d =>
+          simp only [hd] at h
+          cases hl : loadRec env.captured d <;> simp [hl, mapO] at h
+          subst h; exact loadRec_masked _ _ _ _ _ hl
+
+def cfgOf (n : NewCfg) (modeI : Int) (fname : String) : GConfig :=
+  { mode := modeI, netfilterIP := .v4 n.nfAddr n.nfBits, dns := (match n.dns with | some d => .v4 d | none => .invalid), filename := fname }
+def nicOf (n : NewCfg) : GNic := { homeLAN4 := .v4 n.homeLan n.homeBits, router := .v4 n.router, host := .v4 n.host }
+def normMode (m : Int) : Int := if m != 1 && m != 2 && m != 3 then 3 else m
+def WFNew (n : NewCfg) : Prop := n.homeLan < 4294967296 ∧ n.homeBits ≤ 32 ∧ n.nfAddr < 4294967296 ∧ n.nfBits ≤ 32
+
+def handlerOf (modeI : Int) (fname : String) (b : Built) : GHandler :=
+  { mode := normMode modeI, filename := fname, table := some b.table, net1 := some (gsubOf b.net1),
+    net2 := some (appendRouteOptions (gsubOf b.net2) (.v4 b.net1.gw) (cidrMask b.net1.bits (32 - (b.net1.bits : Int))) (.v4 b.net2.gw)) }
+
+def newSpec (env : Env) (fs : List FsOp) (n : NewCfg) (modeI : Int) (fname : String) : Outcome (GHandler × List FsOp) :=
+  if n.accepted = false then .err .other else
+  match loadFile env.hash env.dec (homeExp n) (nfExp n) env.captured (if fname = "" then none else env.readFile fname) with
+  | .ok b =>
+    (match saveSpec env fs (subRecOf b.net1) (subRecOf b.net2) b.table fname with
+     | .ok r => .ok (handlerOf modeI fname b, r.2)
+     | .err e => .err e
+     | .panic => .panic
+     | .hang => .hang)
+  | .err e => .err e
+  | .panic => .panic
+  | .hang => .hang
+
+/-- an expectation with its prefix already masked (what `Config.New` passes for the netfilter subnet) -/
+def maskedExp (e : Expected) : Expected := { e with lan := e.lan / psize e.bits * psize e.bits }
+
+theorem mask_idem (a b : Nat) : a / psize b * psize b / psize b * psize b = a / psize b * psize b := by
+  unfold psize
+  rw [Nat.mul_div_cancel _ (Nat.pow_pos (by decide))]
+
+theorem newSubnet_maskedExp (e : Expected) :
+    Model.Dhcp4File.newSubnet (expectedRec (maskedExp e)) = Model.Dhcp4File.newSubnet (expectedRec e) := by
+  simp only [Model.Dhcp4File.newSubnet, expectedRec, maskedExp, mask_idem]
+  rfl
+
+theorem configChanged_maskedExp (e : Expected) (x : LSub) :
+    Model.Dhcp4File.configChanged (maskedExp e) x = Model.Dhcp4File.configChanged e x := by
+  simp only [Model.Dhcp4File.configChanged, maskedExp, mask_idem]
+
+theorem liftSub_bind {β} (x : Outcome LSub) (f : GSubnet → Outcome β) :
+    (liftSub x >>= f) = match x with | .ok n => f (gsubOf n) | .err e => .err e | .panic => .panic | .hang => .hang := by
+  cases x <;> rfl
+
+set_option hygiene false in
+/-- the reset branch: both subnets from `newSubnet`, empty table, route options, save -/
+macro "reset_branch" : tactic => `(tactic| (
+  cases hr1 : Model.Dhcp4File.newSubnet (expectedRec (homeExp n)) <;> simp only []
+  cases hr2 : Model.Dhcp4File.newSubnet (expectedRec (nfExp n)) <;> simp only []
+  rw [PV.Lemmas.DhcpFileTie.saveConfig_tie env fs _ fname _ _ _ rfl rfl rfl]
+  simp only [hcfg, gsubOf]
+  generalize saveSpec env fs _ _ _ fname = S
+  cases S <;> simp [handlerOf, normMode, hmode, gsubOf, subRecOf, prefixBits]))
+
+theorem New_tie (env : Env) (fs : List FsOp) (n : NewCfg) (modeI : Int) (fname : String) (hn : WFNew n)
+    (hwf : ∀ y d, env.dec y = some d → WFFile d) :
+    Gen.DhcpFile.Config_New env fs (cfgOf n modeI fname) (nicOf n) = newSpec env fs n modeI fname := by
+  unfold Gen.DhcpFile.Config_New newSpec
+  by_cases hacc : n.accepted = true
+  · have hacc' := hacc
+    simp only [NewCfg.accepted, Bool.and_eq_true, decide_eq_true_eq] at hacc'
+    obtain ⟨hc, hb⟩ := hacc'
+    have hc' : pcontains n.homeLan n.homeBits n.nfAddr = true := by simpa [pcontains, psize] using hc
+    have hb' : ¬ ((n.nfBits : Int) < (n.homeBits : Int)) := by omega
+    have hdns : (if (!addrIsValid (match n.dns with | some d => FAddr.v4 d | none => FAddr.invalid)) = true then FAddr.v4 n.router
+                 else (match n.dns with | some d => FAddr.v4 d | none => FAddr.invalid)) = FAddr.v4 (n.dns.getD n.router) := by
+      cases n.dns <;> simp [addrIsValid]
+    cases hd : n.dns <;> by_cases hmode : (modeI != 1 && modeI != 2 && modeI != 3) = true <;>
+      simp only [cfgOf, nicOf, prefixIsValid, prefixContains, prefixAddr, prefixBits, zeroHandler, loadConfig_tie env _ hwf, hc', hb', hd, hmode, hacc,
+        addrIsValid, Bool.not_true, Bool.not_false, Bool.false_eq_true, if_false, if_true, decide_false, decide_true, Outcome.bind_ok, Outcome.pure_eq]
+    all_goals (
+      rw [loadConfigSpec_model, loadFile_model]
+      have hmk := loadModel_masked env fname
+      generalize loadModel env fname = Lm at hmk ⊢
+      have hH : SubRec.mk (.v4 n.homeLan n.homeBits) (.v4 n.router) (.v4 n.host) (.v4 (n.dns.getD n.router)) zeroSubRec.first zeroSubRec.dur 1
+          = expectedRec (homeExp n) := rfl
+      simp only [hd, Option.getD_none, Option.getD_some] at hH
+      have hN : SubRec.mk (prefixMasked (.v4 n.nfAddr n.nfBits)) (.v4 n.nfAddr) (.v4 n.host) familyDNSAddr zeroSubRec.first zeroSubRec.dur 3
+          = expectedRec (maskedExp (nfExp n)) := rfl
+      have wfH : WFRec (expectedRec (homeExp n)) := ⟨hn.1, hn.2.1⟩
+      have wfN : WFRec (expectedRec (maskedExp (nfExp n))) := ⟨masked_lt _ _ hn.2.2.1, hn.2.2.2⟩
+      simp only [hH, hN, PV.Lemmas.DhcpFileTie.newSubnet_tie _ wfH, PV.Lemmas.DhcpFileTie.newSubnet_tie _ wfN, newSubnet_maskedExp]
+      have hcfg : ∀ g ip m r, (appendRouteOptions g ip m r).cfg = g.cfg := fun _ _ _ _ => rfl
+      cases Lm with
+      | panic => simp [liftLoad2, try3, fromModel]
+      | hang => simp [liftLoad2, try3, fromModel]
+      | err e =>
+        simp [liftLoad2, try3, fromModel, Gen.DhcpFile.orElseM, deref, liftSub_bind, resetSpec]
+        reset_branch
+      | ok o =>
+        cases o with
+        | none =>
+          simp [liftLoad2, try3, fromModel, Gen.DhcpFile.orElseM, deref, liftSub_bind, resetSpec]
+          reset_branch
+        | some tr =>
+          obtain ⟨n1, n2, t⟩ := tr
+          obtain ⟨hm1, hm2⟩ := hmk n1 n2 t rfl
+          have hg1 : (gsubOf n1).cfg = subRecOf n1 := rfl
+          have hg2 : (gsubOf n2).cfg = subRecOf n2 := rfl
+          simp only [liftLoad2, try3, fromModel, Gen.DhcpFile.orElseM, deref, Outcome.bind_ok, Outcome.pure_eq, hg1, hg2,
+            PV.Lemmas.DhcpFileTie.configChanged_tie _ _ hm1, PV.Lemmas.DhcpFileTie.configChanged_tie _ _ hm2, configChanged_maskedExp,
+            Option.isNone_some, Bool.or_false, Bool.false_or, Bool.false_eq_true, if_false]
+          by_cases c1 : Model.Dhcp4File.configChanged (homeExp n) n1 = true
+          · simp [c1, liftSub_bind, resetSpec]
+            reset_branch
+          · by_cases c2 : Model.Dhcp4File.configChanged (nfExp n) n2 = true
+            · simp [c1, c2, liftSub_bind, resetSpec]
+              reset_branch
+            · simp only [c1, c2, if_false, Outcome.bind_ok, Bool.false_eq_true, Bool.or_self]
+              rw [PV.Lemmas.DhcpFileTie.saveConfig_tie env fs _ fname _ _ _ rfl rfl rfl]
+              simp only [hcfg, gsubOf]
+              generalize saveSpec env fs _ _ _ fname = S
+              cases S <;> simp [handlerOf, normMode, hmode, gsubOf, subRecOf, prefixBits])
+  · have hacc' : n.accepted = false := by simpa using hacc
+    simp only [NewCfg.accepted, Bool.and_eq_false_iff, decide_eq_false_iff_not] at hacc'
+    by_cases hc' : pcontains n.homeLan n.homeBits n.nfAddr = true
+    · have hb' : ((n.nfBits : Int) < (n.homeBits : Int)) := by
+        rcases hacc' with h | h
+        · simp [pcontains, psize, h] at hc'
+        · omega
+      simp [cfgOf, nicOf, prefixIsValid, prefixContains, prefixAddr, prefixBits, hacc, hc', hb', failErr]
+    · simp [cfgOf, nicOf, prefixIsValid, prefixContains, prefixAddr, prefixBits, hacc, hc', failErr]
